@@ -59,6 +59,12 @@ CHECKS['C08'] = dict(technique='runtime monitoring: print/parse round-trip oracl
              note='canon ignores spans, ids and integer display hints and identifies INF/NAN/true/false with their literals; idempotence is judged modulo integer display hints (hex/bin/bool/unsigned spellings are '
                   'formatter hints the parser does not keep).',
              design='3/C08')
+CHECKS['C11'] = dict(technique='runtime monitoring: reference-model oracle (independent evaluator) over const_simplify output, const items, AstVm results and compiled bytes',
+             text='Exploration. Typed expression trees over every operator with boundary operands are (a) folded by the real const_simplify / const-item evaluator and compared with an independent evaluator '
+                  '(32-bit wrap, truncating division, shift mod 32, >> vs >>>, binary32 per operation, C-style logic), undefined values must be diagnosed; (b) run in AstVm before and after folding under register '
+                  'valuations and compared with the model; (c) compiled as `const X = e; f(X)` and as `f(e)` through the CLI and compared bytewise.',
+             note='Float->int casts out of range and NaN payloads unjudged; transcendental functions within 2 ulp; python float arithmetic rounded to binary32 per operation is exact for + - * / sqrt fmod.',
+             design='3/C11')
 WIP = {}  # property -> reason (not claimed)
 
 def main():
